@@ -110,10 +110,10 @@ func writeTie(s *Shared, dir string, all []*Pkg, obs []*FileRun, starts map[*Fil
 		byKey[o.Pkg+"/"+o.File] = o
 	}
 	var c01, c07, c20 []tieCase
-	// the real walkers under recording visitors (S1 and S2 files)
+	// the real walkers under recording visitors
 	var recPkgs []*Pkg
 	for _, p := range all {
-		if p.Stream == "S1" || p.Stream == "S2" {
+		if p.Stream != "S4" { // every file that is converted for the tie: S1, S2, S3 mutants, synthesised rule inputs
 			recPkgs = append(recPkgs, p)
 		}
 	}
